@@ -842,6 +842,13 @@ class Sim:
         nerr = len(self.errors)
         if op[0] in ('auto', 'auto2'):
             op = self.resolve_auto(op)
+        if op[0] == 'repu':
+            # ['repu', alg, outcome, mask, metric]: the handed unit of that
+            # algorithm answers (scripted skeletons address units by name)
+            tag = self.ref.tag[op[1] % len(self.ref.tag)]
+            idx = [i for i, u in enumerate(self.handed()) if u.jobid == tag]
+            op = (['rep', idx[0], op[2], op[3], op[4] if len(op) > 4 else 1]
+                  if idx else ['tick'])
         ev = {'op': op, 'step': self.step, 'before': before}
         kind = op[0]
         if kind == 'tick':
@@ -1023,6 +1030,16 @@ class Sim:
             enabled += ['repup'] * 2
         if kind == 'auto2' and lost:
             enabled += ['replost'] * 3
+        # a unit that was queued again while its result is outstanding
+        again = [i for i, u in enumerate(hs)
+                 if u.target in self.todo(u.jobid)]
+        # ... by a newer report of an upstream run (the pending event then
+        # carries that run's ID) rather than by an operator request
+        newer = [i for i in again
+                 if isinstance(self.nodes[hs[i].jobid].get('runid'), int)]
+        again = newer or again
+        if kind == 'auto2' and again:
+            enabled += ['repagain'] * 3
         if self.handed():
             enabled += ['rep'] * 4
         if self.pending_any() or self.farm._cluster:
@@ -1034,7 +1051,10 @@ class Sim:
             enabled += ['reqall'] * 2
         act = enabled[n % len(enabled)]
         if act == 'repup':
-            return ['rep', up[a % len(up)], [1, 1, 2][b % 3], 0, c & 1]
+            return ['rep', up[a % len(up)], [0, 0, 1, 2][b % 4], 4095, c & 1]
+        if act == 'repagain':
+            return ['rep', again[a % len(again)], 0, [4095, 4095, c][b % 3],
+                    c & 1]
         if act == 'replost':
             return ['rep', lost[a % len(lost)], [0, 0, 0, 1][b % 4],
                     [0, 4095, c][b % 3], c & 1]
